@@ -113,6 +113,14 @@ POOL = [
     ("PERCENT-COMPLETE:50", "PERCENT-COMPLETE", {}, lambda v: isinstance(v, int) and int(v) == 50, None),
     ("LOCATION;ALTREP=\"http://x.example/a,b\":Room\\; 1 ünï", "LOCATION", {"ALTREP": "http://x.example/a,b"}, T("Room; 1 ünï"), None),
     ("COMPLETED:20240102T030405Z", "COMPLETED", {}, lambda v: _dt(v, datetime(2024, 1, 2, 3, 4, 5), 0), None),
+    # years below 1000: four digits on the wire (strftime('%Y') does not pad on every platform)
+    ("DTSTART;VALUE=DATE:09991231", "DTSTART", {"VALUE": "DATE"}, lambda v: _dt(v, date(999, 12, 31)), None),
+    ("DUE:01230101T000000", "DUE", {}, lambda v: _dt(v, datetime(123, 1, 1)), None),
+    ("RDATE;VALUE=DATE:00010101,09990101", "RDATE", {"VALUE": "DATE"}, lambda v: _list_dt(v, [date(1, 1, 1), date(999, 1, 1)]), None),
+    ("EXDATE:00011231T235959Z", "EXDATE", {}, lambda v: _list_dt(v, [datetime(1, 12, 31, 23, 59, 59)], 0), None),
+    ("LAST-MODIFIED:09990102T030405Z", "LAST-MODIFIED", {}, lambda v: _dt(v, datetime(999, 1, 2, 3, 4, 5), 0), None),
+    ("FREEBUSY:09990101T000000Z/09990102T000000Z", "FREEBUSY", {},
+     lambda v: _period(v, datetime(999, 1, 1), datetime(999, 1, 2)), None),
 ]
 
 # shape -> list of (component name, parent slot or 0)
